@@ -17,7 +17,7 @@ TITLE = "URL and Windows-path parts index into, and decode from, their parent's 
 SCHEMES = [b"http", b"HTTP", b"hTtp", b"https", b"ftp"]
 USERINFO = [b"", b"u@", b"u:p@", b":p@", b"u:@", b"u:p:q@", b"%41b@", b"u%40x:p%3A@"]
 HOSTS = [b"example.com", b"ex%61mple.com", b"8.8.4.4", b"0x7f.1", b"2130706433", b"%31.1.1.1", b"[::1]", b"[0:0:0:0:0:0:0:1]", b"%5B::1%5D",
-         b"a-b.example.org", b"010.1.1.1", b"EXAMPLE.COM"]
+         b"a-b.example.org", b"010.1.1.1", b"EXAMPLE.COM", b"[::1%47]", b"[fe80::1%25eth0]", b"[::1%2541]", b"[::ffff:1.2.3.4]"]
 PORTS = [b"", b":", b":80"]
 SEGS = [b"a", b".", b"..", b"%2e", b"%2E%2e", b"%2F", b"%41", b"", b"b%3Fc"]
 QUERIES = [b"", b"?", b"?q=%41", b"?a/b?c%2Fd"]
@@ -30,7 +30,7 @@ WIN_SEGS = [b"abc", b".", b"..", b"a.b"]
 WIN_FILES = [b"x.exe", b"y.dll", b"z.txt", b"noext", b"a.b.DLL"]
 WIN_EMBED = [(b"", b""), (b"x ", b" y"), (b'"', b'"')]
 
-STREAM_FAMS = ["net", "winpath", "mix"]
+STREAM_FAMS = ["net", "winpath", "mix", "ctx"]
 PATH_LEN = {"quick": 3, "thorough": 4}
 WIN_LEN = {"quick": 3, "thorough": 5}
 
@@ -303,7 +303,7 @@ def run_unit(unit, rec):
                         run_win(rec, data, {"kind": "win", "data": data})
         rec.sample({"family": "windows-path", "last": data})
     elif kind == "stream":
-        streams.run_unit(unit[1], rec, stream_monitor)
+        streams.run_unit(unit[1], rec, stream_monitor, repeat=2)
 
 
 def replay(w, rec):
